@@ -487,6 +487,10 @@ class Monitor(object):
                 ctx["step_queried"].add((cid, svc))
                 i.queried[svc] = i.queried.get(svc, 0) + 1
             if verb == "MORE":
+                # ... except that a challenge response may only go to a service that challenged this very client
+                if ctx["target"] is not i or svc not in ctx["more_targets"]:
+                    self.v("C06", "more-untimely", "challenge response %r sent to %s, which did not challenge client %d (the client's registration spans a reload)" % (
+                        ln, svc, cid), sig="more-untimely:after-reload")
                 ctx["more_targets"].discard(svc)
             i.awaiting.add(svc)
             if i.timeout_fired:
